@@ -1,5 +1,6 @@
 import Driver.Base
 import WitnessVerif.Model.Tile
+import WitnessVerif.Model.Tlog
 import WitnessVerif.Generated.Facts
 /-
 Tile records: `TP` (path of a tile index), `TREE` (leaf hashes of the stub log), `TF` (one SumDB feed
@@ -50,6 +51,13 @@ def handleTF (st : St) (n : Nat) (toks : List String) : Result := Id.run do
   if ierr != "-" || subProof != mshow then
     ok := false
     outs := outs ++ [s!"DIVERGE {n} TF field=proof model={mshow.take 140} impl={ierr}:{subProof.take 140}"]
+  -- model of tlog.ProveTree over the same leaves against the library's own answer
+  let mtlog := match Tlog.proveTree rfcH (Sha.sha256 []) st.treeLeaves to from_ with
+    | some p => if p.isEmpty then "-" else ",".intercalate (p.map hx)
+    | none => "!"
+  if mtlog != ref then
+    ok := false
+    outs := outs ++ [s!"DIVERGE {n} TF field=tlog model={mtlog.take 140} impl={ref.take 140}"]
   if paths != refpaths then
     ok := false
     outs := outs ++ [s!"DIVERGE {n} TF field=paths model={refpaths.take 200} impl={paths.take 200}"]
